@@ -38,7 +38,14 @@ TickStep == LET nx == NextScheduled(Cfg, Work(st)) IN
             /\ st' = Apply(Cfg, st, [E0 EXCEPT !.kind = "Blocks", !.n = nx - st.h + 1]).st
             /\ Quiet
 
-LiveNext == CompleteStep \/ SecondStore \/ TickStep
+\* the owner and the providers act in between, at most MaxEvents times in a behaviour: a renewal, a migration (whose
+\* hand-over again nobody is obliged to complete), a termination
+ExtraStep == /\ depth < MaxEvents
+             /\ \E e \in Renews(st) \cup Migrates(st) \cup Terminates(st) :
+                   LET r == Apply(Cfg, st, e) IN r.res = "ok" /\ st' = r.st
+             /\ depth' = depth + 1 /\ UNCHANGED <<gh, bad, lastEv, hist>>
+
+LiveNext == CompleteStep \/ SecondStore \/ TickStep \/ ExtraStep
 LiveSpec == LiveInit /\ [][LiveNext]_vars /\ WF_vars(TickStep)
 
 \* settled: no order is waiting for anybody any more - every order still on chain is completed and lists only stored shards -
@@ -50,4 +57,15 @@ AllSettled ==
     /\ st.timeoutQ = <<>>
     /\ BalOf(st, "m_order") = 0
 EventuallySettled == <>[]AllSettled
+
+\* C11 / C07 / C14 in the long run (nobody renews in this world): once the paid term is over the data, its orders and shards are
+\* gone, every schedule is empty, every provider has its shard collateral and its used capacity back, and the market holds no
+\* more than rounding dust for what was stored
+AllGone ==
+    /\ st.orders = <<>> /\ st.shards = <<>> /\ st.metas = <<>> /\ st.aliases = <<>>
+    /\ st.timeoutQ = <<>> /\ st.expShardQ = <<>> /\ st.expData = <<>>
+    /\ \A i \in 1..Len(st.pledges) : st.pledges[i].used = 0 /\ st.pledges[i].shPl = 0
+    /\ \A i \in 1..Len(st.workers) : st.workers[i].storage = 0 /\ st.workers[i].income = 0
+    /\ BalOf(st, "m_order") = 0
+EventuallyGone == <>[]AllGone
 =============================================================================
